@@ -47,7 +47,7 @@ BUILT = {
     "C20": ("DESIGN.md 3/C20", "host_is_name_part/address_is_local on symbolic strings; real async_resolve_host over forked host forms x mDNS outcomes x OS-resolver outcomes vs the decision table; zeroconf ownership over operation sequences",
             "stub AsyncServiceInfo / AsyncZeroconf / getaddrinfo; host strings chosen by fork from small tables"),
 }
-ENABLED = set(os.environ.get('VF_ENABLED', 'C01,C02,C05,C10,C12,C13').split(','))
+ENABLED = set(os.environ.get('VF_ENABLED', ','.join('C%02d' % i for i in range(1, 21))).split(','))
 NOT_YET = "check not built yet in this round (see DESIGN.md 8 build order); no claim is made"
 
 props = [json.loads(l) for l in open(os.path.join(ROOT, "properties.jsonl"))]
